@@ -47,8 +47,10 @@ class Prop(fw.PropBase):
         'the strategies are PARAMETERS of the model: what a strategy extracts (C02), barcode correction (C03) and the '
         'header codec incl. the phred clamp and the 255 limit (C04) are not re-verified here; their outcome class '
         '(accept / NonMultiplexable / other exception) per pair is measured by calling the real strategy.demultiplex',
-        'FastqHandle.write is modelled as atomic per call: a record list whose second record fails to serialise after '
-        'the first was written is outside the model (counted as partial_write in the evidence; never produced)',
+        'a partial write (first mate written, serialising a later mate raises) is modelled literally, excluded from the '
+        'theorems by the hypothesis step_ok, and that hypothesis is CHECKED on the real code: any partial write is a violation',
+        'libraries large enough to cross HandleLimiter.prune (stream percell_prune, > 10000 record writes) are not run '
+        'through the model; the specification is evaluated on their real output files directly',
         'attribution of an output record to its input pair in search() uses a unique 5-digit id the generator puts '
         'into every header',
     ]
@@ -195,6 +197,29 @@ class Prop(fw.PropBase):
                                       rng.randint(1, n)])})
         return c
 
+    def make_prune_case(self):
+        """one-file-per-cell output with more cell files than open handles (-fh 2) and more than 10000 record writes, so that
+        FastqHandle's HandleLimiter prunes (pruneEvery = 10000) and pruned cell files are re-opened afterwards.  Too large for
+        the model's table look-up: the specification is evaluated on the real files directly (spec_only)."""
+        rng = self.rng
+        d = {s['name']: s for s in self.describe()['strategies']}['NLAIII384C8U3']
+        cells = rng.sample(d['barcodes'], 6)
+        idx = self.describe()['indices'][0]
+        n = 5000 + rng.randint(8, 40)
+        f1, f2, meta = [], [], []
+        for p in range(n):
+            uid = UID0 + p
+            s1 = ''.join(rng.choice(ALPH) for _ in range(3)) + cells[(p + (p // 7)) % 6] + 'CATG' + ''.join(rng.choice(ALPH) for _ in range(6))
+            s2 = ''.join(rng.choice(ALPH) for _ in range(10))
+            if p % 997 == 5:
+                s1 = s1[:3] + 'GGGGGGGG' + s1[11:]      # a few rejected pairs
+            f1 += [self.header('full', uid, 1, idx), s1, '+', 'E' * len(s1)]
+            f2 += [self.header('full', uid, 2, idx), s2, '+', 'E' * len(s2)]
+            meta.append({'uid': uid, 'form': 'full', 'kind': 'valid', 'seqs': [s1, s2], 'quals': ['E' * len(s1), 'E' * len(s2)]})
+        return {'stream': 'percell_prune', 'spec_only': True, 'max_handles': 2, 'eol': '\n', 'use': ['NLAIII384C8U3'], 'rejects': True,
+                'sc': True, 'maxp': None, 'lib': 'LIB', 'pe_handle': True, 'meta': meta,
+                'files': [{'lines': f1, 'final_eol': True}, {'lines': f2, 'final_eol': True}]}
+
     def make_reader_case(self):
         rng = self.rng
         nm = rng.choice([1, 2, 2, 3])
@@ -240,6 +265,8 @@ class Prop(fw.PropBase):
             cases.append(self.make_reader_case())
         for _ in range(8 if quick else 60):
             cases.append(self.make_main_case())
+        for _ in range(1 if quick else 2):
+            cases.append(self.make_prune_case())
         return cases
 
     def exhaustive_cases(self):
@@ -284,16 +311,16 @@ class Prop(fw.PropBase):
         files = [f['lines'] for f in c['files']]
         strategies, rejhdr = [], []
         if not c.get('reader_only'):
-            for col in r['outcomes']:
+            for col in r.get('outcomes', []):
                 tbl = []
                 for pair, o in zip(r['pairs'], col):
                     if o[0] == 0:
-                        ov = [0, [[cell, text] for cell, text in o[1]]]
+                        ov = [0, [[ok, cell, text] for ok, cell, text in o[1]]]
                     else:
-                        ov = [min(o[0], 2), o[1]]
+                        ov = [o[0], o[1]]
                     tbl.append([pair, ov])
                 strategies.append(tbl)
-            rejhdr = [[rd, reason, ([h[0], h[1]] if h[0] < 2 else [2])] for rd, reason, h in r['rejhdr']]
+            rejhdr = [[rd, reason, ([h[0], h[1]] if h[0] < 2 else [2])] for rd, reason, h in r.get('rejhdr', [])]
         return [cfg, files, strategies, rejhdr]
 
     @staticmethod
@@ -317,6 +344,11 @@ class Prop(fw.PropBase):
     @staticmethod
     def model_files(mv):
         return {(t, fw.as_str(cell), m): fw.as_str(b) for t, cell, m, b, _labels in mv[3]}
+
+    @staticmethod
+    def is_partial(o):
+        """accepted, a first mate written, serialising a later one raised (hypothesis step_ok of the theorems fails)"""
+        return o[0] == 0 and any(rec[0] == 0 for rec in o[1])
 
     def compare(self, c, r, mv):
         """-> list of differences between the model's prediction and the implementation"""
@@ -377,7 +409,7 @@ class Prop(fw.PropBase):
 
         def bump(h, k, n=1):
             hist[h][k] = hist[h].get(k, 0) + n
-        seen, nontriv, partial = set(), set(), 0
+        seen, nontriv, partial, first_partial = set(), set(), 0, None
         for c, r in zip(cases, res):
             bump('stream', c['stream'])
             if 'error' in r:
@@ -398,20 +430,22 @@ class Prop(fw.PropBase):
             classes = set()
             npairs = len(r['pairs'])
             consumed = npairs if c['maxp'] is None else min(npairs, max(1, c['maxp']))
-            for name, col in zip(r['order'], r['outcomes']):
+            for name, col in zip(r['order'], r.get('outcomes', [])):
                 for o in col[:consumed]:
-                    cls = {0: 'accept', 1: 'reject:', 2: 'raise:', 3: 'partial_write:'}[o[0]]
-                    if o[0] == 1:
+                    cls = {0: 'accept', 1: 'reject:', 2: 'raise:'}[o[0]]
+                    if self.is_partial(o):
+                        cls = 'partial_write:' + next(rec[2] for rec in o[1] if rec[0] == 0)
+                        partial += 1
+                        first_partial = first_partial or (len(seen), name)
+                    elif o[0] == 1:
                         cls += 'index' if 'index' in o[1] else ('barcode' if o[1].startswith('bc:') else 'other')
                     elif o[0] >= 2:
                         cls += o[1]
                     bump('outcome', cls)
                     classes.add(cls.split(':')[0])
-                    if o[0] == 0:
+                    if o[0] == 0 and not self.is_partial(o):
                         bump('strategy_accepts', name)
-                    if o[0] == 3:
-                        partial += 1
-            for _rd, _reason, h2 in r['rejhdr']:
+            for _rd, _reason, h2 in r.get('rejhdr', []):
                 bump('reject_path', {0: 'formatted', 1: 'raw_fallback', 2: 'raise'}[h2[0]])
             if len(classes) >= 2 or consumed < npairs:
                 nontriv.add(h)
@@ -426,7 +460,7 @@ class Prop(fw.PropBase):
                     'unequal lengths',
             'libraries': nlib, 'reader_only_cases': len(cases) - nlib, 'distinct': len(seen),
             'pair_strategy_steps': sum(hist['outcome'].values()),
-            'histograms': hist, 'partial_write_steps_outside_model': partial,
+            'histograms': hist, 'partial_write_steps': partial,
             'strategies_with_an_accept': len(hist['strategy_accepts']),
             'strategies_registered': len(self.describe()['strategies']),
             'harness_errors': len(errs),
@@ -441,7 +475,7 @@ class Prop(fw.PropBase):
         # ---- model
         lib_idx = [i for i, c in enumerate(cases) if not c.get('reader_only')]
         rd_idx = [i for i, c in enumerate(cases) if c.get('reader_only')]
-        usable = [i for i in lib_idx if not any(o[0] == 3 for col in res[i]['outcomes'] for o in col)]
+        usable = [i for i in lib_idx if 'outcomes' in res[i]]
         minputs = {i: self.model_input(cases[i], res[i]) for i in usable}
         mout = dict(zip(usable, fw.run_model('C01', 0, [minputs[i] for i in usable])))
         mpre = dict(zip(usable, fw.run_model('C01', 1, [minputs[i] for i in usable])))
@@ -474,6 +508,21 @@ class Prop(fw.PropBase):
         self.cov['vm_compute_crosscheck'] = {'cases': len(pairs_vm) + len(rsmall), 'mismatches': max(nm, 0) + max(nm2, 0)}
         if not (ok and ok2):
             raise fw.Broken('extraction', 'vm_compute and extracted model disagree: ' + (log if not ok else log2)[-800:])
+        # ---- libraries too large for the model: the specification itself, on the real files
+        big = [i for i in lib_idx if 'outcomes' not in res[i]]
+        self.cov['spec_only_libraries'] = [{'stream': cases[i]['stream'], 'pairs': len(res[i]['pairs']), 'result': res[i]['result'],
+                                            'output_files': len(res[i]['out_files']),
+                                            'records_written': sum(v.count('\n') // 4 for v in res[i]['out_files'].values())} for i in big]
+        for i in big:
+            sv = self.spec_violations(cases[i], res[i])
+            if sv:
+                raise fw.Broken('correspondence', 'specification violated on the real output files of a %s library (%d pairs, one file per '
+                                'cell, -fh %s): %s' % (cases[i]['stream'], len(res[i]['pairs']), cases[i].get('max_handles'), sv[0][1]))
+        # ---- hypothesis step_ok of the theorems, checked on the real code: FastqHandle.write never writes part of a pair
+        if partial:
+            raise fw.Broken('correspondence', 'hypothesis step_ok (no partial write) fails on the real code: %d (pair, strategy) steps wrote '
+                            'a first mate to the demultiplexed output and then raised while serialising a later mate; first: library '
+                            '#%s strategy %s' % ((partial,) + tuple(first_partial)))
         if dis:
             self.dis = dis
             i = dis[0]['case']
@@ -532,11 +581,9 @@ class Prop(fw.PropBase):
                     break
             return v
         if 'crash' in r['result']:
-            if all(h[0] != 2 for _a, _b, h in r['rejhdr']):
+            if all(h[0] != 2 for _a, _b, h in r.get('rejhdr', [])):
                 v.append(('crash', 'the loader raised %s and left the library unfinished although every reject record can be formatted'
                           % r['result']['crash']))
-            return v
-        if any(o[0] == 3 for col in r['outcomes'] for o in col):
             return v
         ns = len(c['use'])
         nh = 2 if c['pe_handle'] else 1
